@@ -70,3 +70,6 @@ pub open spec fn ints(v: Seq<i16>) -> Seq<int> { v.map(|i: int, e: i16| e as int
 pub open spec fn bounded(v: Seq<i16>) -> bool {
     forall|j: int| 0 <= j < v.len() ==> -12160 < #[trigger] v[j] < 12160
 }
+pub open spec fn zeros(x: Seq<u8>, a: int, b: int) -> bool {
+    forall|p: int| a <= p < b ==> !bit(x, p)
+}
